@@ -205,7 +205,7 @@ ADDED = {
  "C10": "Whole-key writes also go through set_nested with a one-segment path; three-segment paths into two-level objects; every operation sequence to depth 7 over one key; a recorded family of proofs that fail after nested sub-goals succeeded.",
  "C11": "The persistent engine is reconfigured with set_config, queried with an attached RETE engine (with retractions there), handed a fresh copy of the asserted facts, and the facts handed back are checked; a look-alike string value is in the fact domain.",
  "C12": "A fourth machine (WindowedStream with a per-window cap read through every aggregator) and add_event / clear on the sliding window; the aggregated payload key also contains the path separator.",
- "C13": "The transition cover is repeated with every time quantity scaled by units just above one second and by large units; unbounded allowed lateness is in the domain; every 12-offer sequence that climbs by one or steps two back (up to 12 watermark advances); events whose source/sequence pairs differ but concatenate alike.",
+ "C13": "The transition cover is repeated with every time quantity scaled by units just above one second and by large units; unbounded allowed lateness is in the domain; every 12-offer sequence that climbs by one or steps two back (up to 12 watermark advances; thorough: also every 10-offer sequence with the largest timestamp itself as a third choice); events whose source/sequence pairs differ but concatenate alike.",
  "C15": "clear is part of the concurrent mix; the linearization must also explain the quiescent read-back; 60 000 (thorough 3 000 000) further histories are screened at quiescence; extreme saliences; FireOrder.tla listing order for up to 55 rules; Fork (Clone: the copy is used on, the original must stay as it was) and AddGrl (two rules from one GRL text, added in order, first duplicate ends the call) are actions of KnowledgeBase.tla.",
  "C09": "The two truth values are replayed and recorded in four spellings (booleans and three pairs of strings); fresh queries alternate memoisation on and off.",
  "C14": "All behaviours are replayed again with timestamps shifted beyond 2^53, with other joins on the same streams registered, kept or unregistered, and with the join id registered, unregistered and registered again; recorded histories include partitions of 70-90 out-of-order events of one key.",
